@@ -109,7 +109,8 @@ engine_prop('C03', ['C03'], BET_FIELDS, BET_OPS, directed={'rule96': 0.08, 'bigp
 engine_prop('C06', ['C06'], CARD_FIELDS, CARD_OPS, directed={'deck_boundary': 0.08})
 engine_prop('C07', ['C07'], PHASE_FIELDS | CAN_FIELDS, ALL_OPS, results=True)
 engine_prop('C08', ['C08'], CAN_FIELDS, set(), results=True)
-engine_prop('C09', ['C09'], PHASE_FIELDS | CHIP_FIELDS | CARD_FIELDS, ALL_OPS, directed={'ante_allin': 0.04, 'stud8': 0.04})
+engine_prop('C09', ['C09'], PHASE_FIELDS | CHIP_FIELDS | CARD_FIELDS, ALL_OPS,
+            directed={'ante_allin': 0.04, 'stud8': 0.04, 'mixdeal': 0.04})
 engine_prop('C10', ['C10'], DEAL_FIELDS, DEAL_OPS, directed={'exact_deck': 0.08, 'stud8': 0.04})
 engine_prop('C12', ['C12'], SHOW_FIELDS | CHIP_FIELDS, SHOW_OPS, directed={'stud8': 0.05})
 # C11's statement covers, per variant, the hole cards and facings and the board cards of every street, the
@@ -138,7 +139,7 @@ engine_prop('C17', ['C17'], {'acpc'}, set(), quick=1440,
             profile={'predefined': True, 'variants': ['FT', 'NT'], 'equal_stacks': True, 'max_players': 6, 'no_antes': 0.7,
                      'tune': {'unknown': False}})
 engine_prop('C13', ['C13'], {'opener', 'actors', 'actor', 'turn', 'bringin', 'completion'}, BET_OPS,
-            directed={'ante_allin': 0.08})
+            directed={'ante_allin': 0.08, 'stud8': 0.06})
 engine_prop('C14', ['C14'], RUNOUT_FIELDS | {'subpots', 'pots_'}, {'RunoutCountSelection', 'BoardDealing', 'ChipsPushing', 'HoleCardsShowingOrMucking'})
 engine_prop('C15', ['C15'], set(), ALL_OPS, directed={'chop': 0.05})
 
@@ -480,12 +481,16 @@ def replay_eval(pid, d):
             return 1
         print('not reproduced on the current tree')
         return 0
-    cls = impl_types()[tn]
-    try:
-        hs = [cls(c) for c in inp[1:]]
-    except Exception as e:  # noqa: BLE001
-        hs = None
-        err = e
+    import evalcheck as ec
+    from pokerkit import Card as _Card
+    hs, err = [], None
+    for c in inp[1:]:
+        # the same argument shape the sampler used (text, tuple, list, iterator, generator)
+        line, h = ec.impl_hand(tn, [] if c == '=' else list(_Card.parse(c)))
+        if h is None:
+            hs, err = None, ValueError(line)
+            break
+        hs.append(h)
     from pokerkit import Card
     if any(not all(Card.parse(c)) for c in inp[1:] if c != '='):
         if hs is not None:
